@@ -494,6 +494,9 @@ def run(ctx):
         a, b = r[2]
         sl, c = (a, b) if a[0] == "index" else (b, a)
         okm = sl[0] == "index" and sl[1] == ("param", irr.path, 1) and sl[2][0] == "agg" and sl[2][2] == (("int", 0), ("int", len(magic))) and c == ("bytes", magic)
+    if not okm and is_call(r) and callee_name(r[1]) == "starts_with" and len(r[2]) == 2:
+        # buf.starts_with(MAGIC) is the same test (and false, not a panic, for inputs shorter than the magic)
+        okm = r[2][0] == ("param", irr.path, 1) and r[2][1] == ("bytes", magic)
     ctx.check("framing", "request/magic-compare", okm, "is_rfc_request compares buf[0..8] with the same magic constant", "is_rfc_request is %s" % fmt(r), ctx.loc(irr))
     nrr = ctx.fn("roughenough::request::nonce_from_rfc_request")
     nev = W.ev(nrr.path)
